@@ -125,7 +125,7 @@ def check_case(case, ctx):
         if a_ctrl is not None:
             ctx.count('cases/' + case['cls'] + '_abuf')
             order, deps = W.line_deps(b.c, strip_forks=case['strip_forks'])
-            evaluated = [li for li in order if deps[li][0] != 'alias']       # netlist-derived set of evaluated lines
+            evaluated = [li for li in order if deps[li][0] not in ('alias', 'zero')]       # netlist-derived set of evaluated lines
             for rounds in (1, 2):
                 exp = np.zeros_like(np.asarray(sim.abuf))
                 for z in evaluated:
